@@ -54,7 +54,7 @@ P = D.DesignProperty(
     rule=("case = generated design spec in the reference domain that RandomGen accepts; up to 20 sequences from RandomGen and 3 each "
           "from IterateGen/UniformGen when they delegate are judged by the reference validity predicate; non-trivial = at least one "
           "sequence judged and the design has a derived factor, a constraint or a weight; distinct = distinct spec JSON"),
-    cfg_quick=CFG, n_quick=60, n_thorough=2500, case_limit=(12, 90),
+    cfg_quick=CFG, n_quick=60, n_thorough=700, case_limit=(12, 90),
     limits={"max_T": {"quick": 9, "thorough": 14}, "n_random": {"quick": 12, "thorough": 20}},
     assumptions=["vp/ref.py implements the documented semantics", "default acceptable error 0 (the class RandomGen, not an instance)"])
 P.export(globals())
